@@ -123,3 +123,21 @@ Proof.
   unfold rows_all. cbn [fold_left snd]. apply IH; [exact Hd| |exact Hz|exact Hl].
   rewrite zip_app_length; lia.
 Qed.
+
+(* ---------------------------------------------------------------- FASTA: concatenation of files *)
+(* FASTA files can be concatenated: reading the lines of one file followed by the lines of another one (which starts with
+   a header) gives the records of the first followed by the records of the second, whatever their layout; an error in
+   either part is an error of the whole *)
+Theorem fasta_concat l1 h l2 : head_is GT h = true -> forall st,
+  iter_fasta st (l1 ++ h :: l2)
+  = bind (iter_fasta st l1) (fun r1 => bind (iter_fasta None (h :: l2)) (fun r2 => Ok (r1 ++ r2))).
+Proof.
+  intros Hh. remember (iter_fasta None (h :: l2)) as B eqn:EB. induction l1 as [|l l1 IH]; intros st.
+  - cbn [app iter_fasta bind]. rewrite Hh. subst B. cbn [iter_fasta]. rewrite Hh. cbn [bind flush].
+    destruct (iter_fasta (Some (id_from_header (strip (lstrip_ch GT h)), strip (lstrip_ch GT h), [])) l2); reflexivity.
+  - cbn [app iter_fasta]. destruct (head_is GT l).
+    + rewrite IH. destruct (iter_fasta (Some (id_from_header (strip (lstrip_ch GT l)), strip (lstrip_ch GT l), [])) l1) as [a|e]; cbn [bind]; [|reflexivity].
+      destruct B as [b|e]; cbn [bind]; [|reflexivity]. rewrite app_assoc. reflexivity.
+    + destruct (head_is SEMI l); [apply IH|].
+      destruct st as [[[i hd] d]|]; [apply IH|]. destruct (strip l); [apply IH|reflexivity].
+Qed.
